@@ -355,7 +355,8 @@ theorem post_field_step (P : Prog) (hash : Key → String) (fuel : Nat) (ih : Po
   | none =>
     simp only [hl] at h
     generalize subst args (chosenTy f) = ty at h
-    cases hk : kind.overridesFixedName <;> cases ty <;> simp only [hk] at h
+    generalize chosenTy f = cty at h
+    cases hk : kind.overridesFixedName <;> cases cty <;> simp only [hk] at h
     all_goals first
       | exact ihF _ _ _ _ h
       | (simp only [push, Option.some.injEq, Prod.mk.injEq] at h
@@ -650,7 +651,8 @@ theorem mono_field_step (P : Prog) (hash : Key → String) (f g : Nat) (_hg : f 
   | none =>
     simp only [hl] at h ⊢
     generalize subst args (chosenTy fl) = ty at h ⊢
-    cases hk : kind.overridesFixedName <;> cases ty <;> simp only [hk] at h ⊢
+    generalize chosenTy fl = cty at h ⊢
+    cases hk : kind.overridesFixedName <;> cases cty <;> simp only [hk] at h ⊢
     all_goals first
       | exact h
       | exact ihF _ _ _ h
